@@ -128,12 +128,30 @@ Definition flush_usable (s : wst) (ft : option nat) : option nat :=
   | None => None
   end.
 
-(* the flush timer fires (after the current holder of writer.mu, which may be about to re-arm it, has released) *)
+(* producers that have done their Add and size check and only have their lock section left *)
+Definition run_psched (c : wcfg) (s : wst) : wst :=
+  fold_right (fun (tp : nat * pc) s =>
+                match getpc (thr s) (fst tp) with
+                | Some PSched => match astep c s (LStep (fst tp)) with Next s1 => s1 | _ => s end
+                | _ => s
+                end) s (thr s).
+
+(* the flush timer fires.  If the model's timer is not armed, what armed it in the real run has not
+   been replayed yet: the holder of writer.mu (about to re-arm it) and the producers whose calls have
+   not been reported as returned yet are run first. *)
 Definition spawn_flush (c : wcfg) (st : istate) : option (istate * nat) :=
   let t := i_next st in
   let s0 := i_s st in
   let s1 := if tarmed s0 then Some s0
-            else match owner s0 with Some o => release FUEL c s0 o | None => None end in
+            else
+              let s' := match owner s0 with
+                        | Some o => release FUEL c s0 o
+                        | None => Some s0
+                        end in
+              match s' with
+              | Some s' => if tarmed s' then Some s' else Some (run_psched c s')
+              | None => None
+              end in
   match s1 with
   | Some s1 => match astep c s1 (LTimerFire t) with
                | Next s2 => Some (mkI s2 (i_gate st) (Some t) (S t), t)
@@ -321,6 +339,9 @@ Fixpoint slow_ok (maxq : Z) (all evs : list ev) (qbytes : Z) (closed : bool) : b
   | _ :: evs' => slow_ok maxq all evs' qbytes closed
   end.
 
+Definition disturbed (e : ev) : bool :=
+  match e with EvRelease true => true | EvEnqDone _ RSlow => true | EvClose _ _ => true | _ => false end.
+
 Definition oracle (k : case) : bool :=
   match k with
   | CaseQ ic ops panicked obs =>
@@ -337,6 +358,9 @@ Definition oracle (k : case) : bool :=
        | Some (c, false) => true
        | None => if flen =? 0 then items_eqb wr acc else true
        end) &&
+      (* the driver ends a case only when no thread of the writer can move: unless the connection was
+         closed, a write failed or an enqueue reported a slow consumer, nothing may be left queued *)
+      (existsb disturbed evs || (flen =? 0)) &&
       slow_ok (c_maxq cfg) evs evs 0%Z false
   end.
 
